@@ -87,6 +87,13 @@ def step(env, d, st, succ, fill=12345):
     st.calls += 6
     if ksec.raw != sk or kpub.raw != pk.raw or xo.raw != xo2.raw or par.value != (Pd[1] & 1) or par2.value != par.value or x32.raw != b32(Pd[0]):
         st.fail("keypair / x-only accessors disagree with the key", {"cfg": L.config, "d": hex(d)})
+    # the parity output is optional ("ignored if NULL"): the x-only key must be the same without it
+    xo3, xo4 = buf(64), buf(64)
+    r3 = L.keypair_xonly_pub(L.ctx, xo3, None, kp)
+    r4 = L.xonly_pubkey_from_pubkey(L.ctx, xo4, None, pk)
+    st.calls += 2
+    if r3 != 1 or r4 != 1 or xo3.raw != xo.raw or xo4.raw != xo.raw:
+        st.fail("x-only conversion with pk_parity = NULL differs from the conversion with a parity output", {"cfg": L.config, "d": hex(d)})
     # ---- negate
     s2 = buf(sk)
     r1 = L.ec_seckey_negate(L.ctx, s2)
